@@ -36,6 +36,19 @@ fn add_headers(flow: &mut F<Prepare>, rng: &mut Rng, hop: usize, has_host: bool,
             _ => {}
         }
         let mut value = format!("a{}-{}-", hop, i).into_bytes();
+        if rng.chance(1, 10) {
+            // a cookie jar / credential store handing back exactly what the original request carried
+            match name.to_ascii_lowercase().as_str() {
+                "cookie" => value = b"o-cookie".to_vec(),
+                "authorization" => value = b"o-auth".to_vec(),
+                "accept" => value = b"o-accept".to_vec(),
+                _ => {}
+            }
+        }
+        if rng.chance(1, 12) {
+            name = "expect";
+            value = b"100-continue".to_vec();
+        }
         match name {
             "content-length" => value = b"3".to_vec(),
             "host" => value = format!("added{}.test", hop).into_bytes(),
@@ -70,7 +83,7 @@ fn check(head: &[u8], added: &[(String, Vec<u8>)], eff: &Eff, policy: RedirectAu
     let mut last_added_at = None;
     for (n, v) in added {
         let class = match n.as_str() {
-            "cookie" | "authorization" | "content-length" | "host" | "connection" => n.as_str(),
+            "cookie" | "authorization" | "content-length" | "host" | "connection" | "expect" => n.as_str(),
             _ => "other",
         };
         rec.cov(&format!("{}/depth{}/{}", class, eff.depth, pol));
@@ -100,7 +113,7 @@ fn check(head: &[u8], added: &[(String, Vec<u8>)], eff: &Eff, policy: RedirectAu
     }
     // ahead of the original headers
     if let Some(la) = last_added_at {
-        if let Some(first_orig) = wire.iter().position(|(_, v)| v.starts_with(b"o-")) {
+        if let Some(first_orig) = wire.iter().position(|(n, v)| v.starts_with(b"o-") && !added.iter().any(|(an, av)| an == n && av == v)) {
             if first_orig < la {
                 rec.fail("C16/original-before-added", format!("an original header sits at position {} before the added header at {}", first_orig, la));
                 return false;
@@ -142,6 +155,11 @@ fn case(rng: &mut Rng, rec: &mut Rec) {
             None => return,
         };
         if hop_i == depth {
+            if !needs_body(eff.method) && rng.chance(1, 6) {
+                // the escape hatch is switched on after the headers were added: they must still all be sent
+                flow.send_body_despite_method();
+                rec.cov("despite-after-headers");
+            }
             let mut s = flow.proceed();
             rec.call();
             // half of the heads go out through small, varying buffers
@@ -219,6 +237,8 @@ impl Property for P {
         }
         v.push(("content-length/depth0/*".into(), 5));
         v.push(("written/small-buffers".into(), 100));
+        v.push(("expect/*".into(), 50));
+        v.push(("despite-after-headers".into(), 50));
         v
     }
 }
